@@ -37,6 +37,9 @@ func main() {
 		if len(line) > 0 {
 			line = strings.TrimRight(line, "\r\n")
 			fmt.Fprintln(out, safeStep(d, strings.Fields(line)))
+			if in.Buffered() == 0 {
+				out.Flush() // nothing else queued: let an interactive caller see the answer
+			}
 		}
 		if err != nil {
 			return
